@@ -91,3 +91,9 @@ func init() {
 		Assume: []string{"two goroutines never operate on the same tree at the same time (the statement promises independence between trees and calls, not thread-safe nodes)", "the sequential specification is the reference model of model/ (state = tree as built so far)"},
 		Rule: "history checking: (a) EVERY sequential history up to length 8 (quick) / 9 (thorough) over {NewRoot (<= 2 live trees), Add(tree, parent in {root, last added}, name in {a,b}), Op(tree)} ending in an operation, with text output, and at shorter bounds with walk, iterator, JSON, custom branches, dry-run, mkdir (jail delta) and verify; (b) seeded random histories of 20-200 calls on <= 6 live trees over 9 operation kinds; (c) the same kind of histories split across 2-8 goroutines with trees handed between goroutines through a channel and independent From-Markdown calls (text, massive, JSON) running concurrently, also on the race-detector build; every call is recorded at the client boundary with logical call/return stamps, histories are partitioned by tree and each partition is checked with porcupine against the specification; distinct key = hash(history, tree); non-trivial = >= 4 calls including an operation"}
 }
+
+func init() {
+	props["C11"] = propCfg{Level: "fault_enumeration", Race: true,
+		Assume: []string{"one gtree call at a time per worker, so every goroutine with a gtree frame (or created by one) belongs to that call", "leak = the same set of new gtree goroutines, all in states only another goroutine can end, in two observations >= 200 ms apart after the call returned; hang = the same during the call (>= 300 ms); the 60 s watchdog firing while goroutines are active is inconclusive, never a violation", "'bounded time' is decided as deadlock-freedom plus return before the watchdog on the executions run; no latency bound is claimed", "a clean race-detector run covers only the accesses the workload executed"},
+		Rule: "fault enumeration over massive-mode calls: documents with B in {0,1,2,3,5,12,30} failing blocks (first / last / seeded positions) failing in the generator stage (malformed line), the grower stage (invalid name with validation on) or the final stage (pre-existing roots for mkdir, missing roots for verify, failing callback, failing writer); reader failing after 0..100% of the input; cancellation after EVERY input offset (reader cancels the context) and at EVERY hook event of an unperturbed run (trigger on the K-th verifPoint event); context cancelled before the call; deadline contexts of 0-400 us; the four From-Root operations plain / pre-cancelled / cancelled at a hook event / failing; each under a seeded GOMAXPROCS in {1,2,4,16} and perturbation profile {none, light, heavy delays at the hooks}; one evaluation = one real call watched by the deadlock monitor, the leak monitor and (cancellation kinds) the oracle 'nil => output complete, error => errors.Is(err, ctx.Err())'; the same workload runs on the -race build and every DATA RACE report is a violation; distinct key = hash(kind, operation, fault parameters, hook-event order); non-trivial = a fault or cancellation was requested (triggers_fired / leaks / points_reached are measured)"}
+}
